@@ -16,8 +16,8 @@ Proof.
   - exists Trap, s. reflexivity.
 Qed.
 
-(* outside the core (by constructor) everything traps, leaving the state alone *)
-Lemma noncore_traps : forall l g m o s, is_core_shape o = false -> core_sem l g m (WOp o) s = Halt Trap s.
+(* outside the core (by constructor) everything GOES WRONG, leaving the state alone *)
+Lemma noncore_wrong : forall l g m o s, is_core_shape o = false -> core_sem l g m (WOp o) s = Halt Wrong s.
 Proof. intros l g m o s H. destruct o; try discriminate H; reflexivity. Qed.
 
 Lemma is_core_shape_of o : is_core o = true -> is_core_shape o = true.
@@ -152,14 +152,25 @@ Section Ren.
   Lemma nf_op_memory_size i : nf_op cx ecx (W_MemorySize i) = WOp (W_MemorySize (rm i)). Proof. reflexivity. Qed.
   Lemma nf_op_memory_grow i : nf_op cx ecx (W_MemoryGrow i) = WOp (W_MemoryGrow (rm i)). Proof. reflexivity. Qed.
 
-  (* a non-core operator is re-encoded as a non-core operator, or (undecodable) as `unreachable`,
-     or (unencodable) not at all: in each case the core machine traps on it *)
-  Lemma nf_op_noncore : forall l g m o s, is_core_shape o = false -> core_sem l g m (nf_op cx ecx o) s = Halt Trap s.
+  (* a DECODABLE non-core operator is re-encoded as a non-core operator, or (unencodable) not at all: in each case
+     the core machine goes wrong on it.  An UNDECODABLE operator (`ref.null` of a concrete heap type is the only one) is
+     totalised by [dec] into `unreachable`, a genuine trap: since going wrong is separated from trapping, the machine
+     no longer does the same on it ([core_sem_renamed_undecodable_refuted] below) - the real parser panics there *)
+  Lemma nf_op_noncore : forall l g m o s, is_core_shape o = false -> decode_plain (px_i2id cx) o <> None ->
+    core_sem l g m (nf_op cx ecx o) s = Halt Wrong s.
   Proof.
-    intros l g m o s H. unfold nf_op, dec.
-    destruct (decode_plain (px_i2id cx) o) as [p|] eqn:Hd; [|reflexivity].
+    intros l g m o s H Hdec. unfold nf_op, dec.
+    destruct (decode_plain (px_i2id cx) o) as [p|] eqn:Hd; [|contradiction].
     destruct (encode_plain (ex_id2i ecx) p) as [w|] eqn:He; [|reflexivity].
-    apply noncore_traps. rewrite (core_codec _ _ _ _ _ Hd He). exact H.
+    apply noncore_wrong. rewrite (core_codec _ _ _ _ _ Hd He). exact H.
+  Qed.
+  (* without decodability: halts, state unchanged, going wrong or trapping *)
+  Lemma nf_op_noncore_halts : forall l g m o s, is_core_shape o = false ->
+    core_sem l g m (nf_op cx ecx o) s = Halt Wrong s \/ core_sem l g m (nf_op cx ecx o) s = Halt Trap s.
+  Proof.
+    intros l g m o s H. destruct (decode_plain (px_i2id cx) o) as [p|] eqn:Hd.
+    - left. apply nf_op_noncore; [exact H|]. rewrite Hd. discriminate.
+    - right. unfold nf_op, dec. rewrite Hd. reflexivity.
   Qed.
 
   Section Slots.
@@ -181,13 +192,16 @@ Section Ren.
        original operator does on the original slots - for every operator, core or not, whose offset
        immediate (if it is a load / store of the core) fits in 32 bits.  The alignment immediate may
        change (an exponent >= 32 becomes 0): it has no meaning. *)
-    Theorem core_sem_renamed : forall o s, offset_ok o = true ->
+    Theorem core_sem_renamed : forall o s, offset_ok o = true -> decode_plain (px_i2id cx) o <> None ->
       core_sem lslot' gslot' mslot' (nf_op cx ecx o) s = core_sem lslot gslot mslot (WOp o) s.
     Proof.
-      intros o s Ho. destruct (is_core_shape o) eqn:H.
+      intros o s Ho Hdec. destruct (is_core_shape o) eqn:H.
       - rewrite (nf_op_core o H). apply core_sem_ren_core; assumption.
-      - rewrite (nf_op_noncore _ _ _ o s H), (noncore_traps _ _ _ o s H). reflexivity.
+      - rewrite (nf_op_noncore _ _ _ o s H Hdec), (noncore_wrong _ _ _ o s H). reflexivity.
     Qed.
+    (* a core operator is decodable: the premise is only about the operators outside the core *)
+    Lemma core_shape_decodable : forall o, is_core_shape o = true -> decode_plain (px_i2id cx) o <> None.
+    Proof. intros o H. destruct o; try discriminate H; discriminate. Qed.
   End Slots.
 End Ren.
 
@@ -318,6 +332,7 @@ Theorem core_roundtrip_equiv : forall cx ecx lslot gslot mslot lslot' gslot' msl
   (forall bt, loop_arity tys' (nf_bt cx ecx bt) = loop_arity tys bt) ->
   (forall bt, nparams tys' (nf_bt cx ecx bt) = nparams tys bt) ->
   forall l, (forall o, In o (ops_of l) -> memarg_ok o = true) ->
+  (forall o, In o (ops_of l) -> decode_plain (px_i2id cx) o <> None) ->
   forall fuel s,
     eval st halt pop_cond pop_index unwind (fun bt => enter tys' (nf_bt cx ecx bt)) leave
       (sem_ren st halt cx ecx (core_sem lslot' gslot' mslot'))
@@ -325,11 +340,11 @@ Theorem core_roundtrip_equiv : forall cx ecx lslot gslot mslot lslot' gslot' msl
       fuel (fst (nf_rt_list false l)) s
     = run_core lslot gslot mslot tys fuel l s.
 Proof.
-  intros cx ecx lslot gslot mslot lslot' gslot' mslot' tys tys' Hl Hg Hm Ha Hla Hnp l Hok fuel s. unfold run_core.
+  intros cx ecx lslot gslot mslot lslot' gslot' mslot' tys tys' Hl Hg Hm Ha Hla Hnp l Hok Hdec fuel s. unfold run_core.
   apply (nf_equiv_renamed_on st halt pop_cond pop_index unwind leave cx ecx
            (core_sem lslot gslot mslot) (core_sem lslot' gslot' mslot') (enter tys) (enter tys')
            (arity tys) (arity tys') (loop_arity tys) (loop_arity tys')).
-  - intros o Ho s0. apply core_sem_renamed; try assumption. apply offset_ok_of, Hok, Ho.
+  - intros o Ho s0. apply core_sem_renamed; try assumption; [apply offset_ok_of, Hok, Ho|apply Hdec, Ho].
   - intros bt s0. apply enter_nparams, Hnp.
   - exact Ha.
   - exact Hla.
@@ -436,11 +451,12 @@ Theorem core_roundtrip_equiv_tree : forall cx ecx lslot gslot mslot lslot' gslot
   (forall bt, loop_arity tys' (nf_bt cx ecx bt) = loop_arity tys bt) ->
   (forall bt, nparams tys' (nf_bt cx ecx bt) = nparams tys bt) ->
   forall l, (forall o, In o (ops_of l) -> memarg_ok o = true) ->
+  (forall o, In o (ops_of l) -> decode_plain (px_i2id cx) o <> None) ->
   forall fuel s,
     run_core lslot' gslot' mslot' tys' fuel (map (ren_t cx ecx) (fst (nf_rt_list false l))) s
     = run_core lslot gslot mslot tys fuel l s.
 Proof.
-  intros cx ecx lslot gslot mslot lslot' gslot' mslot' tys tys' Hl Hg Hm Ha Hla Hnp l Hok fuel s.
+  intros cx ecx lslot gslot mslot lslot' gslot' mslot' tys tys' Hl Hg Hm Ha Hla Hnp l Hok Hdec fuel s.
   unfold run_core at 1. rewrite eval_ren_t. apply core_roundtrip_equiv; assumption.
 Qed.
 
@@ -453,11 +469,12 @@ Theorem core_roundtrip_equiv_tys : forall cx ecx lslot gslot mslot lslot' gslot'
   (forall i ps rs, tys i = Some (ps, rs) -> existing cx ps rs <> None) ->
   (forall ps rs ty, find_type cx ps rs = Some ty -> tys' (ex_id2i ecx S_type ty) = Some (ps, rs)) ->
   forall l, (forall o, In o (ops_of l) -> memarg_ok o = true) ->
+  (forall o, In o (ops_of l) -> decode_plain (px_i2id cx) o <> None) ->
   forall fuel s,
     run_core lslot' gslot' mslot' tys' fuel (map (ren_t cx ecx) (fst (nf_rt_list false l))) s
     = run_core lslot gslot mslot tys fuel l s.
 Proof.
-  intros cx ecx lslot gslot mslot lslot' gslot' mslot' tys tys' Hl Hg Hm H1 H2 H3 l Hok fuel s.
+  intros cx ecx lslot gslot mslot lslot' gslot' mslot' tys tys' Hl Hg Hm H1 H2 H3 l Hok Hdec fuel s.
   apply core_roundtrip_equiv_tree; try assumption; intros bt;
     first [ apply (nparams_nf_bt cx ecx tys tys' H1 H2 H3 bt) | apply (arities_nf_bt cx ecx tys tys' H1 H2 H3 bt) ].
 Qed.
@@ -474,6 +491,31 @@ Qed.
 (* ... and the premise is decidable by running [forallb memarg_ok] over the operators of the body *)
 Lemma memarg_ok_forallb l : forallb memarg_ok (ops_of l) = true -> forall o, In o (ops_of l) -> memarg_ok o = true.
 Proof. intros H. apply forallb_forall, H. Qed.
+
+(* ... and so is decodability (true of every core operator: [core_shape_decodable]; the real parser panics otherwise) *)
+Definition decodable (cx : pctx) (o : wop) : bool := match decode_plain (px_i2id cx) o with Some _ => true | None => false end.
+Lemma decodable_forallb cx l : forallb (decodable cx) (ops_of l) = true ->
+  forall o, In o (ops_of l) -> decode_plain (px_i2id cx) o <> None.
+Proof.
+  intros H o Ho. pose proof (proj1 (forallb_forall _ _) H o Ho) as E. unfold decodable in E.
+  destruct (decode_plain (px_i2id cx) o); [discriminate|discriminate E].
+Qed.
+(* WITHOUT decodability the renaming lemma is FALSE since going wrong is told apart from trapping: `ref.null` of a
+   concrete heap type is outside the core (the input goes wrong) and undecodable, [dec] totalises it into `unreachable`
+   (the output traps).  Identity contexts and slot maps. *)
+Theorem core_sem_renamed_undecodable_refuted :
+  exists cx ecx (lslot gslot mslot lslot' gslot' mslot' : N -> N) o s,
+    (forall i, lslot' (rl cx ecx i) = lslot i) /\
+    (forall i, gslot' (rg cx ecx i) = gslot i) /\
+    (forall i, mslot' (rm cx ecx i) = mslot i) /\
+    offset_ok o = true /\
+    core_sem lslot gslot mslot (WOp o) s = Halt Wrong s /\
+    core_sem lslot' gslot' mslot' (nf_op cx ecx o) s = Halt Trap s.
+Proof.
+  exists cx_id, ecx_id, (fun i => i), (fun i => i), (fun i => i), (fun i => i), (fun i => i), (fun i => i),
+    (W_RefNull (HT_Other 0)), s_big.
+  repeat split.
+Qed.
 
 (* the emitted operator stream is the flattening of that output tree *)
 Theorem core_output_tree_is_emitted : forall cx ecx l,
@@ -526,13 +568,14 @@ Module Ex.
   Proof. intros bt. rewrite !nparams_loop_arity. apply loop_arity0_ok. Qed.
 
   (* the hypotheses of the end-to-end statement are satisfiable, with a NON-trivial renumbering *)
-  Theorem ex_equiv : forall l, (forall o, In o (ops_of l) -> memarg_ok o = true) -> forall fuel s,
+  Theorem ex_equiv : forall l, (forall o, In o (ops_of l) -> memarg_ok o = true) ->
+    (forall o, In o (ops_of l) -> decode_plain (px_i2id cx0) o <> None) -> forall fuel s,
     run_core lslot' gslot' mslot' no_tys fuel (map (ren_t cx0 ecx0) (fst (nf_rt_list false l))) s
     = run_core idN idN idN no_tys fuel l s.
   Proof.
-    intros l Hok fuel s. apply core_roundtrip_equiv_tree.
+    intros l Hok Hdec fuel s. apply core_roundtrip_equiv_tree.
     - exact lslot'_ok. - exact gslot'_ok. - exact mslot'_ok. - exact arity0_ok. - exact loop_arity0_ok. - exact nparams0_ok.
-    - exact Hok.
+    - exact Hok. - exact Hdec.
   Qed.
 
   Definition P (o : wop) : rt := RPlain o 0.
@@ -605,7 +648,7 @@ Module Ex.
     = Stop Return {| stk := [VI32 120]; locs := [(0, VI32 0); (1, VI32 120)]; globs := [(0, VI32 7)]; labs := []; mem := []; pages := 0; max_pages := 0 |}.
   Proof. vm_compute. reflexivity. Qed.
 
-  (* traps *)
+  (* a trap ... *)
   Example div_zero : run_core idN idN idN no_tys 0 [P (W_I32Const 1); P (W_I32Const 0); P W_I32DivU; P W_Drop] (s_n 0)
     = Stop Trap {| stk := [VI32 0; VI32 1]; locs := locs (s_n 0); globs := globs (s_n 0); labs := []; mem := []; pages := 0; max_pages := 0 |}.
   Proof. vm_compute. reflexivity. Qed.
@@ -613,13 +656,14 @@ Module Ex.
                                                     P (W_I32Const 17); P (W_I32Const 5); P W_I32RemU] (s_n 0)
                    with Fall s => stk s | _ => [] end = [VI32 2; VI32 3].
   Proof. vm_compute. reflexivity. Qed.
+  (* ... and going wrong: stack underflow, operand of the wrong type, operator outside the core *)
   Example underflow : run_core idN idN idN no_tys 0 [P (W_I32Const 1); P W_I32Add] (s_n 0)
-    = Stop Trap {| stk := [VI32 1]; locs := locs (s_n 0); globs := globs (s_n 0); labs := []; mem := []; pages := 0; max_pages := 0 |}.
+    = Stop Wrong {| stk := [VI32 1]; locs := locs (s_n 0); globs := globs (s_n 0); labs := []; mem := []; pages := 0; max_pages := 0 |}.
   Proof. vm_compute. reflexivity. Qed.
   Example type_mismatch : match run_core idN idN idN no_tys 0 [P (W_I64Const 1); P (W_I32Const 1); P W_I32Add] (s_n 0)
-                          with Stop Trap _ => true | _ => false end = true.
+                          with Stop Wrong _ => true | _ => false end = true.
   Proof. vm_compute. reflexivity. Qed.
-  Example outside_core : match run_core idN idN idN no_tys 0 [P W_F32Abs] (s_n 0) with Stop Trap _ => true | _ => false end = true.
+  Example outside_core : match run_core idN idN idN no_tys 0 [P W_F32Abs] (s_n 0) with Stop Wrong _ => true | _ => false end = true.
   Proof. vm_compute. reflexivity. Qed.
   (* a condition that is not there: stuck, not a trap (the abstract evaluator's verdict) *)
   Example stuck : run_core idN idN idN no_tys 0 [RBrIf 0 0] (s_n 0) = Stuck.
@@ -773,15 +817,15 @@ Module Ex.
   Proof. vm_compute. reflexivity. Qed.
   Example store16_oob : runm [I 65535; I 1; P (W_I32Store16 (ma 0))] = Stop Trap (with_s_m [VI32 1; VI32 65535] [] 1).
   Proof. vm_compute. reflexivity. Qed.
-  (* operand types are checked: an i64 value for i32.store, an i64 address *)
-  Example store_wrong_type : runm [I 0; L 1; P (W_I32Store (ma 0))] = Stop Trap (with_s_m [VI64 1; VI32 0] [] 1).
+  (* operand types are checked: an i64 value for i32.store, an i64 address: going wrong *)
+  Example store_wrong_type : runm [I 0; L 1; P (W_I32Store (ma 0))] = Stop Wrong (with_s_m [VI64 1; VI32 0] [] 1).
   Proof. vm_compute. reflexivity. Qed.
-  Example load_wrong_type : runm [L 0; P (W_I32Load (ma 0))] = Stop Trap (with_s_m [VI64 0] [] 1).
+  Example load_wrong_type : runm [L 0; P (W_I32Load (ma 0))] = Stop Wrong (with_s_m [VI64 0] [] 1).
   Proof. vm_compute. reflexivity. Qed.
-  (* an operator on another memory index (slot <> 0) traps *)
-  Example other_memory : runm [I 0; P (W_I32Load {| wa_align := 0; wa_offset := 0; wa_memory := 1 |})] = Stop Trap (with_s_m [VI32 0] [] 1).
+  (* an operator on another memory index (slot <> 0) goes wrong *)
+  Example other_memory : runm [I 0; P (W_I32Load {| wa_align := 0; wa_offset := 0; wa_memory := 1 |})] = Stop Wrong (with_s_m [VI32 0] [] 1).
   Proof. vm_compute. reflexivity. Qed.
-  Example other_memory_size : runm [P (W_MemorySize 1)] = Stop Trap s_m.
+  Example other_memory_size : runm [P (W_MemorySize 1)] = Stop Wrong s_m.
   Proof. vm_compute. reflexivity. Qed.
 
   (* ---- memory.size / memory.grow: 1 page, max 2.  size = 1; grow 1 -> 1 (old size); size = 2; grow 1 -> -1; size = 2;
@@ -908,21 +952,22 @@ Module Ex.
   Example fill_sum_out :
     run_core lslot' gslot' mslot' no_tys 20 (map (ren_t cx0 ecx0) (fst (nf_rt_list false fill_sum))) s_f
     = run_core idN idN idN no_tys 20 fill_sum s_f.
-  Proof. apply ex_equiv, memarg_ok_forallb, fill_sum_ok. Qed.
+  Proof. apply ex_equiv; [apply memarg_ok_forallb, fill_sum_ok|apply decodable_forallb; vm_compute; reflexivity]. Qed.
   (* the output operators address memory 2 *)
   Example fill_sum_out_mem : existsb (fun o => match o with W_I32Store8 m => wa_memory m =? 2 | _ => false end)
       (ops_of (map (ren_t cx0 ecx0) (fst (nf_rt_list false fill_sum)))) = true.
   Proof. vm_compute. reflexivity. Qed.
-  (* ... so that on the ORIGINAL slot map the output traps at the first store *)
+  (* ... so that on the ORIGINAL slot map the output goes wrong at the first store *)
   Example fill_sum_out_unrenumbered :
     match run_core lslot' gslot' idN no_tys 20 (map (ren_t cx0 ecx0) (fst (nf_rt_list false fill_sum))) s_f with
-    | Stop Trap s => length (mem s) | _ => 99%nat end = 0%nat.
+    | Stop Wrong s => length (mem s) | _ => 99%nat end = 0%nat.
   Proof. vm_compute. reflexivity. Qed.
 End Ex.
 
 Print Assumptions core_never_falls.
 Print Assumptions core_sem_renamed.
 Print Assumptions core_sem_renamed_big_offset_refuted.
+Print Assumptions core_sem_renamed_undecodable_refuted.
 Print Assumptions align_roundtrip.
 Print Assumptions nf_op_core_map_idx.
 Print Assumptions core_roundtrip_equiv.
